@@ -375,6 +375,71 @@ example : (finalDisk5 naLabel c5 0 none [⟨⟨7, 3, true, 10⟩, true, 2⟩]).n
 
 end examples5
 
+/-! ## Parts 1 + 2 — the nonadiabatic stream with values
+
+The nonadiabatic record of label `s` produced by the uninterrupted dynamics is
+`naAt D O σ0 s` (`O.init σ0` for `s = 0`; `O.mid (traj D σ0 (s-1))` otherwise: the record is
+appended in the middle of `_do_integrator_step`, so it is a function of the state after step
+`s-1`). -/
+
+/-- the value-level five-stream machine is a conservative extension of the label-level one -/
+theorem erase_agrees_with_Proc5 (D : Dyn σ κ Rec) (O : NAObs σ Rec) (c : Cfg) (na : Nat) (σ0 : σ)
+    (ks : List Crash5) :
+    (vhistory5 D O c na σ0 none ks).map VDisk5.erase = history5 naLabel c na none ks :=
+  erase_vhistory5 D O c na σ0 ks none
+
+/-- along any crash/resume history of the five-stream process, on every disk left behind, a written
+    nonadiabatic row labelled `s` holds the record the uninterrupted dynamics produces for `s`; the
+    other streams, the XYZ file and the checkpoint satisfy `VDiskOK` (the six statements of
+    `values_are_state_at_label`) -/
+theorem values_are_state_at_label_na (D : Dyn σ κ Rec) (O : NAObs σ Rec) (c : Cfg) (na : Nat) (σ0 : σ)
+    (hcc : CkptComplete D c σ0) (ks : List Crash5) :
+    ∀ r ∈ vhistory5 D O c na σ0 none ks,
+      (∀ s x, some (s, x) ∈ r.na → x = naAt D O σ0 s) ∧ VDiskOK D σ0 r.base := by
+  intro r hr
+  have h := (vhistory5_good hcc ks none none_good5 r hr).1
+  exact ⟨h.na, h.base⟩
+
+/-- if nothing after the append changes what the nonadiabatic row records (`_active_states`,
+    `_amp_phase`, `nac_dot`: the cache shift copies `nac_dot`, the post-processing in `run` touches
+    velocities only), i.e. the mid-step record equals an observation `obsNA` of the completed step,
+    then the row labelled `s` holds `obsNA (traj D σ0 s)` exactly like the rows of the other streams -/
+theorem naAt_eq_obs (D : Dyn σ κ Rec) (O : NAObs σ Rec) (σ0 : σ) (obsNA : σ → Rec)
+    (h0 : O.init σ0 = obsNA σ0) (hmid : ∀ st, O.mid st = obsNA (D.Φ st)) :
+    ∀ s, naAt D O σ0 s = obsNA (traj D σ0 s)
+  | 0 => h0
+  | s + 1 => hmid (traj D σ0 s)
+
+/-- THE main theorem with values and the nonadiabatic stream -/
+theorem resume_any_history_values_with_na (D : Dyn σ κ Rec) (O : NAObs σ Rec) (c : Cfg) (na : Nat)
+    (σ0 : σ) (hcc : CkptComplete D c σ0) (ks : List Crash5) :
+    vfinalDisk5 D O c na σ0 none ks = vspecDisk5 D O c na σ0 := by
+  refine eq_vspecDisk5 (vfinalDisk5_good hcc ks none none_good5).1 ?_
+  rw [erase_vfinalDisk5, Option.map_none, resume_any_history_with_na]
+
+theorem resume_eq_uninterrupted_values_with_na (D : Dyn σ κ Rec) (O : NAObs σ Rec) (c : Cfg) (na : Nat)
+    (σ0 : σ) (hcc : CkptComplete D c σ0) (ks : List Crash5) :
+    vfinalDisk5 D O c na σ0 none ks = vfinalDisk5 D O c na σ0 none [] := by
+  rw [resume_any_history_values_with_na D O c na σ0 hcc, resume_any_history_values_with_na D O c na σ0 hcc]
+
+/-- the nonadiabatic record of the toy dynamics: the position mid-step (= position after the step) -/
+def toyNA : NAObs (Nat × Nat) Nat := { init := Prod.fst, mid := fun s => s.1 + s.2 }
+
+example : ∀ s, naAt toyFull toyNA (0, 1) s = Prod.fst (traj toyFull (0, 1) s) :=
+  naAt_eq_obs toyFull toyNA (0, 1) Prod.fst rfl (fun _ => rfl)
+/-- crash inside the integrator step of step 4 after the nonadiabatic append (stale row on disk),
+    then a hard kill in the resumed process; by evaluation, independently of the theorem -/
+example : vfinalDisk5 toyFull toyNA toyCfg 2 (0, 1) none
+    [⟨⟨4, 0, false, 0⟩, true, 0⟩, ⟨⟨4, 5, true, 5⟩, true, 1⟩] = vspecDisk5 toyFull toyNA toyCfg 2 (0, 1) := by
+  decide
+example : (vspecDisk5 toyFull toyNA toyCfg 2 (0, 1)).na = [some (0, 0), some (2, 2), some (4, 4)] := by
+  decide
+example : (vsegment5 toyFull toyNA toyCfg 2 (0, 1) none (some ⟨⟨4, 0, false, 0⟩, true, 0⟩)).na =
+    [some (0, 0), some (2, 2), some (4, 4)] := by decide
+/-- with the lossy checkpoint the resumed nonadiabatic row of step 4 is wrong as well -/
+example : (vfinalDisk5 toyLossy toyNA toyCfg 2 (0, 1) none [⟨⟨3, 0, false, 0⟩, false, 0⟩]).na =
+    [some (0, 0), some (2, 2), some (4, 2)] := by decide
+
 /-! ## Part 3 — the double-counted resume offset -/
 
 /-- Without a resume the slip is invisible: for an uninterrupted run the label `i + 1 + step_offset`
